@@ -66,6 +66,16 @@ Print Assumptions C10_answer_wf.
 
 
 
+(* the elements of a TXT record are bytes when the payload is: in particular every string-length
+   byte of puttxtbin is a byte (src_TXT_CHUNK = 252 < 256, the length byte does not wrap) *)
+Theorem C10_txt_bytes : forall ls q p downenc td,
+  wf_labels ls -> ls <> [] -> q_name q = name_of ls -> q_id q < 65536 -> q_type q = T_TXT ->
+  (length p <= 4098)%nat -> bytes_ok p ->
+  exists m td' msg, write_dns q p downenc td = (Some m, td') /\ wf_msg m = Some msg /\
+                    exists r, m_answers msg = [r] /\ bytes_ok (rr_rdata r) /\ rr_type r = T_TXT.
+Proof. intros ls q p downenc td H1 H2 H3 H4 H5 H6 H7. exact (answer_txt_bytes q ls p downenc td H3 H1 H2 H4 H5 H6 H7). Qed.
+Print Assumptions C10_txt_bytes.
+
 (* ---- C10_ns / C10_a: the non-tunnel answers of tunnel_dns ----------------------------------- *)
 
 (* q_name = pre ++ d with pre = prefix_of lp (every label of lp followed by '.', so pre is empty or
